@@ -351,7 +351,7 @@ def run_heap_cases(ctx, replay):
     if replay is not None:
         todo = [replay["ops"]] if replay.get("kind") == "heap" else []
     else:
-        todo = [gen_heap_ops(rng) for _ in range(ctx.n(150, 2000))]
+        todo = [gen_heap_ops(rng) for _ in range(ctx.n(120, 2000))]
     cases, meta = [], []
     for ops in todo:
         steps = sh.run_heap_ops(ops)
@@ -410,9 +410,9 @@ def run(ctx, replay=None):
             for f in sorted(os.listdir(cdir)):
                 if f.endswith(".json"):
                     todo.append(json.load(open(os.path.join(cdir, f))))
-        for i in range(ctx.n(260, 2500)):
+        for i in range(ctx.n(210, 2500)):
             todo.append(dict(kind="direct", gen=True, big=(i % 10 == 0)))
-        for i in range(ctx.n(60, 600)):
+        for i in range(ctx.n(48, 600)):
             todo.append(dict(kind="tuner", gen=True))
 
     for item in todo:
